@@ -30,7 +30,7 @@ SIMPLE_KINDS = [
     'asyncwith', 'aug', 'ann', 'walrus', 'star', 'imp', 'assert', 'del', 'global', 'match', 'dirstr',
     'vallist', 'valdict', 'valcall', 'valawait', 'valsemi', 'valtuple_ml', 'valbytes', 'printblank',
     'tstr_blank', 'tstr_col0_dq', 'classdeco', 'tryfinally', 'forelse_print', 'genexpr', 'comment_after',
-    'stdout_ref', 'stdout_write_bound',
+    'stdout_ref', 'stdout_write_bound', 'tstr_trailing_ws',
 ]
 
 
@@ -56,6 +56,9 @@ def make_group(k, kind):
         L = ["print('m{}',".format(k), '      {},'.format(t), "      sep='-')"]
     elif kind == 'tstr':
         L = ["v{} = ({}, '''line1 {}".format(k, t, k), '  line2', "line3''')"]
+    elif kind == 'tstr_trailing_ws':
+        # the first physical line of the statement ends in blanks that belong to the string
+        L = ["v{} = ({}, '''alpha {}  ".format(k, t, k), "beta'''  )"]
     elif kind == 'tstr_unpref':
         L = ["v{} = ({}, '''line1 {}".format(k, t, k), ['U4', '    indented text'], ['U4', ' more'], "''')"]
     elif kind == 'tstr_col0':
